@@ -25,6 +25,7 @@ type Prov struct {
 	closures map[*ssa.Function]*ssa.MakeClosure // closure fn -> its (unique) MakeClosure
 	visiting map[ssa.Value]bool
 	depth    int
+	allocDepth map[ssa.Value]int
 	loadCtx  []ssa.Instruction // the load instruction(s) through which the current value is read
 	reachMemo map[[2]*ssa.BasicBlock]bool
 }
@@ -199,6 +200,21 @@ func withSuffix(a, suffix string) string {
 // storesTo collects the values stored into an alloc (optionally into one field of it), including
 // stores made by closures that capture the alloc.
 func (pv *Prov) storesTo(al *ssa.Alloc, field int) (whole []ssa.Value, fieldVals []ssa.Value) {
+	var wholeSt, fieldSt []*ssa.Store
+	defer func() {
+		// kill analysis: a store that dominates the load and cannot be followed by store S makes S dead
+		n := len(pv.loadCtx)
+		if n == 0 {
+			return
+		}
+		ld := pv.loadCtx[n-1]
+		if len(wholeSt) == len(whole) && len(whole) > 1 {
+			whole = pv.killDead(wholeSt, whole, ld)
+		}
+		if len(fieldSt) == len(fieldVals) && len(fieldVals) > 1 {
+			fieldVals = pv.killDead(fieldSt, fieldVals, ld)
+		}
+	}()
 	var scan func(refs []ssa.Instruction, addr ssa.Value)
 	scan = func(refs []ssa.Instruction, addr ssa.Value) {
 		for _, r := range refs {
@@ -209,6 +225,7 @@ func (pv *Prov) storesTo(al *ssa.Alloc, field int) (whole []ssa.Value, fieldVals
 						continue
 					}
 					whole = append(whole, r.Val)
+					wholeSt = append(wholeSt, r)
 				}
 			case *ssa.FieldAddr:
 				if r.X == addr && field >= 0 && r.Field == field {
@@ -218,6 +235,7 @@ func (pv *Prov) storesTo(al *ssa.Alloc, field int) (whole []ssa.Value, fieldVals
 								continue
 							}
 							fieldVals = append(fieldVals, st.Val)
+							fieldSt = append(fieldSt, st)
 						}
 					}
 				}
@@ -246,6 +264,73 @@ func (pv *Prov) storesTo(al *ssa.Alloc, field int) (whole []ssa.Value, fieldVals
 	}
 	scan(*al.Referrers(), al)
 	return
+}
+
+// instrBefore: a and b in the same block, a earlier.
+func instrBefore(a, b ssa.Instruction) bool {
+	if a.Block() != b.Block() {
+		return false
+	}
+	for _, in := range a.Block().Instrs {
+		if in == a {
+			return true
+		}
+		if in == b {
+			return false
+		}
+	}
+	return false
+}
+
+func (pv *Prov) killDead(sts []*ssa.Store, vals []ssa.Value, ld ssa.Instruction) []ssa.Value {
+	if ld.Block() == nil {
+		return vals
+	}
+	// the latest store that dominates the load
+	var latest *ssa.Store
+	for _, s := range sts {
+		if s.Block() == nil || s.Block().Parent() != ld.Block().Parent() {
+			return vals
+		}
+		dom := (s.Block() == ld.Block() && instrBefore(s, ld)) || (s.Block() != ld.Block() && s.Block().Dominates(ld.Block()))
+		if !dom {
+			continue
+		}
+		if latest == nil || (latest.Block() == s.Block() && instrBefore(latest, s)) || (latest.Block() != s.Block() && latest.Block().Dominates(s.Block())) {
+			latest = s
+		}
+	}
+	if latest == nil {
+		return vals
+	}
+	var out []ssa.Value
+	for i, s := range sts {
+		if s == latest || pv.storeReaches(latest, s) && !(s.Block() == latest.Block() && instrBefore(s, latest) && !pv.blockInCycle(s.Block())) {
+			out = append(out, vals[i])
+		}
+	}
+	if len(out) == 0 {
+		return vals
+	}
+	return out
+}
+
+func (pv *Prov) blockInCycle(b *ssa.BasicBlock) bool {
+	seen := map[*ssa.BasicBlock]bool{}
+	st := append([]*ssa.BasicBlock{}, b.Succs...)
+	for len(st) > 0 {
+		x := st[len(st)-1]
+		st = st[:len(st)-1]
+		if x == b {
+			return true
+		}
+		if seen[x] {
+			continue
+		}
+		seen[x] = true
+		st = append(st, x.Succs...)
+	}
+	return false
 }
 
 func isInduction(v ssa.Value) bool {
@@ -309,15 +394,31 @@ func (pv *Prov) Atom(v ssa.Value, env *Env) string {
 		return "?"
 	}
 	if pv.visiting[v] {
-		return "…"
+		// a local variable may legitimately be read again while one of its stored values is being
+		// resolved (s = f(s)): allow one re-entry, flow-sensitivity makes the inner read see earlier stores only
+		if _, isAlloc := v.(*ssa.Alloc); !isAlloc || pv.allocDepth[v] >= 2 {
+			return "…"
+		}
+	}
+	if _, isAlloc := v.(*ssa.Alloc); isAlloc {
+		if pv.allocDepth == nil {
+			pv.allocDepth = map[ssa.Value]int{}
+		}
+		pv.allocDepth[v]++
+		defer func() { pv.allocDepth[v]-- }()
 	}
 	pv.depth++
 	defer func() { pv.depth-- }()
 	if pv.depth > 60 {
 		return "deep"
 	}
+	wasVisiting := pv.visiting[v]
 	pv.visiting[v] = true
-	defer delete(pv.visiting, v)
+	defer func() {
+		if !wasVisiting {
+			delete(pv.visiting, v)
+		}
+	}()
 
 	switch x := v.(type) {
 	case *ssa.Parameter:
